@@ -1,6 +1,8 @@
 package harness
 
 import (
+	"com.tuntun.rangers/node/src/zzverif/model"
+	"crypto/sha256"
 	"encoding/hex"
 	"encoding/json"
 	"fmt"
@@ -66,16 +68,16 @@ func (c07) Budget(tier string) runner.Budget {
 
 func (c07) Describe() runner.Description {
 	return runner.Description{
-		Rule: "each plan: 2..6 honestly signed transactions (native with harness keys; EIP-155 wrapped Ethereum transactions for this chain id) and 10..60 deliveries, each either intact or tampered by exactly one mutation: substitution of one authenticated field (source, target, type, data, extra data, nonce, chain id, time, declared hash - with or without the tamperer recomputing the hash), signature r/s/v bit flips, signature spliced from another honest transaction, one bit flipped anywhere in the marshalled bytes (when it still parses); for wrapped transactions additionally outer-field substitutions, bit flips in the RLP payload, and inner re-encodings (to/nonce/value/gas/data/chain id changed under the original signature; unrecoverable signatures and other-chain signatures declaring the zero address as sender). Ingress paths: peer-to-peer TransactionGotMsg bytes (as envelope, or inside a gateway frame of every accepted method), client write topic, queued write handler (both branches). Exact oracle at quiescence: every pending transaction equals an honestly signed one on all authenticated fields; every honest transaction delivered intact is pending. distinct_nontrivial = distinct (ingress path, mutation kind, tx form, rehash) tuples exercised.",
+		Rule:        "each plan: 2..6 honestly signed transactions (native with harness keys; EIP-155 wrapped Ethereum transactions for this chain id) and 10..60 deliveries, each either intact or tampered by exactly one mutation: substitution of one authenticated field (source, target, type, data, extra data, nonce, chain id, time, declared hash - with or without the tamperer recomputing the hash), signature r/s/v bit flips, signature spliced from another honest transaction, one bit flipped anywhere in the marshalled bytes (when it still parses); for wrapped transactions additionally outer-field substitutions, bit flips in the RLP payload, and inner re-encodings (to/nonce/value/gas/data/chain id changed under the original signature; unrecoverable signatures and other-chain signatures declaring the zero address as sender). Ingress paths: peer-to-peer TransactionGotMsg bytes (as envelope, or inside a gateway frame of every accepted method), client write topic, queued write handler (both branches). Direct probes: honest transactions of keys whose public point has a coordinate with a leading zero byte (sender address from an independent Keccak over the padded coordinates) must pass; on a chain whose id changes at a fork height, native and wrapped transactions signed for either id are verified at heights on either side of the fork in a seeded order (accepted exactly when the ids match); bytes appended behind the signed RLP payload must be refused. Exact oracle at quiescence: every pending transaction equals an honestly signed one on all authenticated fields; every honest transaction delivered intact is pending. distinct_nontrivial = distinct (ingress path, mutation kind, tx form, rehash) tuples exercised.",
 		Assumptions: []string{"unauthenticated fields (request id, socket id, sub-transactions) are not mutated"},
 		Real:        []string{"service.VerifyTransaction (hash, chain id, signature, EIP-155 path, compareTx)", "common secp256k1 sign/recover", "eth_tx (RLP, EIP-155 signer, ConvertTx)", "network receive path (envelope + transaction codecs)", "core game executor ingress handlers", "notify bus fan-out under the simulated scheduler"},
 		Stub:        []string{"websocket gate (bytes are injected at handleMessage)", "ConsensusHelper"},
-		FaultKinds:  []string{"tamper_field", "tamper_bitflip", "tamper_signature", "tamper_inner_rlp", "replay_intact"},
+		FaultKinds:  []string{"tamper_field", "tamper_bitflip", "tamper_signature", "tamper_inner_rlp", "replay_intact", "key_with_short_coordinate", "chain_id_fork_crossed", "unprotected_eth_tx"},
 	}
 }
 
 var c07NativeMuts = []string{"src", "tgt", "type", "data", "extra", "nonce", "chain", "time", "hash", "sig-r", "sig-s", "sig-v", "sig-twin", "splice", "bitflip"}
-var c07EthMuts = []string{"src", "tgt", "type", "data", "nonce", "chain", "hash", "extra-bit", "in-to", "in-nonce", "in-value", "in-gas", "in-data", "in-chain", "in-chain-zero", "in-garbage-zero", "in-src-zero", "bitflip"}
+var c07EthMuts = []string{"src", "tgt", "type", "data", "nonce", "chain", "hash", "extra-bit", "in-to", "in-nonce", "in-value", "in-gas", "in-data", "in-chain", "in-chain-zero", "in-garbage-zero", "in-src-zero", "extra-append", "bitflip"}
 
 func (c07) Gen(seed uint64, tier string) json.RawMessage {
 	r := simrt.NewRand(seed)
@@ -260,6 +262,11 @@ func c07Mutate(h c07Honest, all []c07Honest, d c07Delivery, chainID *big.Int) *t
 	case "extra-bit":
 		raw := common.FromHex(t.ExtraData)
 		t.ExtraData = common.ToHex(flipBit(raw, d.Arg))
+	case "extra-append":
+		// bytes behind the signed RLP item: hash, sender and nonce stay those of the honest transaction
+		raw := common.FromHex(t.ExtraData)
+		junk := simrt.NewRand(uint64(d.Arg) + 7).Bytes(1 + d.Arg%3)
+		t.ExtraData = common.ToHex(append(append([]byte{}, raw...), junk...))
 	case "in-to", "in-nonce", "in-value", "in-gas", "in-data", "in-chain", "in-chain-zero", "in-garbage-zero", "in-src-zero":
 		e := h.eth
 		to := common.Address{}
@@ -480,6 +487,9 @@ func (c07) Exec(raw json.RawMessage, st *simrt.Stats, log *simrt.Log) *simrt.Vio
 	if directViol != nil {
 		return directViol
 	}
+	if v := c07KeyAndForkProbes(&p, n, height, st); v != nil {
+		return v
+	}
 	// exact oracle at quiescence
 	pending := n.Pool.GetReceived()
 	sort.Slice(pending, func(i, j int) bool { return pending[i].Hash.Hex() < pending[j].Hash.Hex() })
@@ -539,4 +549,133 @@ func (c07) Shrink(raw json.RawMessage) []json.RawMessage {
 		}
 	}
 	return out
+}
+
+// c07OddKeys: private keys whose public point has a coordinate with a leading zero byte (about 1 in 128
+// per coordinate): the class where "hash of the coordinates" and "hash of the 32-byte padded coordinates"
+// differ. Found once per process by searching seeded scalars.
+var c07OddKeys []*common.PrivateKey
+
+func c07FindOddKeys() {
+	if c07OddKeys != nil {
+		return
+	}
+	for i := 0; len(c07OddKeys) < 2 && i < 4000; i++ {
+		h := sha256.Sum256([]byte(fmt.Sprintf("c07-odd-key-%d", i)))
+		sk := common.HexStringToSecKey("0x" + hex.EncodeToString(h[:]))
+		pk := sk.GetPubKey()
+		if len(pk.PubKey.X.Bytes()) < 32 || len(pk.PubKey.Y.Bytes()) < 32 {
+			c07OddKeys = append(c07OddKeys, sk)
+		}
+	}
+}
+
+// c07RefAddress derives the account address of a public key independently of the node's code:
+// last 20 bytes of Keccak-256(X padded to 32 bytes || Y padded to 32 bytes).
+func c07RefAddress(sk *common.PrivateKey) string {
+	pk := sk.GetPubKey()
+	buf := make([]byte, 64)
+	x, y := pk.PubKey.X.Bytes(), pk.PubKey.Y.Bytes()
+	copy(buf[32-len(x):32], x)
+	copy(buf[64-len(y):], y)
+	return common.ToHex(model.Keccak(buf)[12:])
+}
+
+// c07KeyAndForkProbes: direct VerifyTransaction probes that need their own keys or chain configuration.
+func c07KeyAndForkProbes(p *c07Plan, n *node.Node, height uint64, st *simrt.Stats) *simrt.Violation {
+	viol := func(ev int, clause, where, f string, a ...interface{}) *simrt.Violation {
+		return simrt.Violationf("C07", clause, where, ev, f, a...)
+	}
+	mkNative := func(sk *common.PrivateKey, source, chain, salt string) *types.Transaction {
+		tx := node.RawTx(types.TransactionTypeOperatorEvent, source, "", 0, "", `{"`+node.Account(1)+`":{"balance":"1"}}`, salt)
+		tx.ChainId = chain
+		tx.Hash = tx.GenHash()
+		sg := sk.Sign(tx.Hash.Bytes())
+		tx.Sign = &sg
+		return tx
+	}
+	// keys with a short coordinate: the honest owner declares the address derived by the reference formula
+	c07FindOddKeys()
+	for i, sk := range c07OddKeys {
+		ref := c07RefAddress(sk)
+		st.Fault("key_with_short_coordinate")
+		if err := n.Pool.VerifyTransaction(mkNative(sk, ref, common.ChainId(height), fmt.Sprintf("odd-%d-%d", p.Seed, i)), height); err != nil {
+			return viol(i, "honest-tx-rejected", "key-with-short-coordinate", "an honestly signed transaction of a key whose public point has a coordinate with a leading zero byte is rejected (declared sender = Keccak of the padded coordinates): %v", err)
+		}
+		other := c07RefAddress(node.HarnessKeys[0].SK)
+		if err := n.Pool.VerifyTransaction(mkNative(sk, other, common.ChainId(height), fmt.Sprintf("odd-x-%d-%d", p.Seed, i)), height); err == nil {
+			return viol(i, "tampered-tx-passes-verification", "native-foreign-source", "a transaction signed by one key and declaring another key's address as sender is accepted")
+		}
+	}
+	// a wrapped Ethereum transaction signed the pre-EIP-155 way (v = 27/28: no chain id in the signed
+	// payload, so it is valid on every chain) declared for this chain
+	{
+		e := eth_tx.NewTransaction(0, common.HexToAddress(node.Account(2)), big.NewInt(11), 3000000, big.NewInt(1000000000), []byte{7})
+		signed, err := eth_tx.SignTx(e, eth_tx.HomesteadSigner{}, &node.HarnessKeys[3].SK.PrivKey)
+		if err == nil {
+			enc, _ := rlp.EncodeToBytes(signed)
+			if sender, err := (eth_tx.HomesteadSigner{}).Sender(signed); err == nil {
+				st.Fault("unprotected_eth_tx")
+				for _, cid := range []string{"0", common.ChainId(height)} {
+					tx := eth_tx.ConvertTx(signed, sender, enc)
+					tx.ChainId = cid
+					if verr := n.Pool.VerifyTransaction(tx, height); verr == nil {
+						return viol(0, "tampered-tx-passes-verification", "eth-unprotected-signature-chain-"+map[bool]string{true: "zero", false: "this"}[cid == "0"], "a wrapped Ethereum transaction whose signature does not commit to any chain id (pre-EIP-155, v=27/28) is accepted with declared chain id %q", cid)
+					}
+				}
+			}
+		}
+	}
+	if p.Seed%3 != 0 {
+		return nil
+	}
+	// a chain whose id changed at a fork height (as on the main network): every transaction is judged by the
+	// chain id of the height it is verified at, whatever was verified before in this process
+	cfg := &common.LocalChainConfig
+	oldOrig, oldP1 := cfg.OriginalChainId, cfg.Proposal001Block
+	defer func() { cfg.OriginalChainId, cfg.Proposal001Block = oldOrig, oldP1 }()
+	forkAt := height + 5
+	cfg.OriginalChainId, cfg.Proposal001Block = "8888", forkAt
+	st.Fault("chain_id_fork_crossed")
+	hs := map[string]uint64{"before": forkAt - 1, "after": forkAt + 1}
+	mkEth := func(h uint64, i int) *types.Transaction {
+		id := common.GetChainId(h)
+		e := eth_tx.NewTransaction(uint64(i), common.HexToAddress(node.Account(2)), big.NewInt(int64(5+i)), 3000000, big.NewInt(1000000000), []byte{9, byte(i)})
+		signed, err := eth_tx.SignTx(e, eth_tx.NewEIP155Signer(id), &node.HarnessKeys[1].SK.PrivKey)
+		if err != nil {
+			panic(runner.InfraError{Msg: "eth sign: " + err.Error()})
+		}
+		enc, _ := rlp.EncodeToBytes(signed)
+		sender, _ := eth_tx.Sender(eth_tx.NewEIP155Signer(id), signed)
+		return eth_tx.ConvertTx(signed, sender, enc)
+	}
+	type probe struct {
+		signedFor, at string
+		eth           bool
+	}
+	var probes []probe
+	for _, a := range []string{"before", "after"} {
+		for _, b := range []string{"before", "after"} {
+			probes = append(probes, probe{a, b, false}, probe{a, b, true})
+		}
+	}
+	r := simrt.NewRand(p.Seed ^ 0xf07c)
+	for k, x := range r.Perm(len(probes)) {
+		pr := probes[x]
+		var tx *types.Transaction
+		if pr.eth {
+			tx = mkEth(hs[pr.signedFor], k)
+		} else {
+			tx = mkNative(node.HarnessKeys[2].SK, c07RefAddress(node.HarnessKeys[2].SK), common.ChainId(hs[pr.signedFor]), fmt.Sprintf("fork-%d-%d", p.Seed, k))
+		}
+		err := n.Pool.VerifyTransaction(tx, hs[pr.at])
+		form := map[bool]string{false: "native", true: "eth"}[pr.eth]
+		if pr.signedFor == pr.at && err != nil {
+			return viol(k, "honest-tx-rejected", "chain-id-"+pr.at+"-fork-"+form, "a transaction signed for the chain id valid %s the fork height is rejected when verified %s it (probe %d of a seeded order): %v", pr.signedFor, pr.at, k, err)
+		}
+		if pr.signedFor != pr.at && err == nil {
+			return viol(k, "tampered-tx-passes-verification", form+"-chain-id-of-the-other-side-of-the-fork", "a transaction signed for the chain id valid %s the fork height is accepted when verified %s it (probe %d of a seeded order)", pr.signedFor, pr.at, k)
+		}
+	}
+	return nil
 }
